@@ -16,6 +16,10 @@ M32 = 0xFFFFFFFF
 K_QUICK = [2047, 2048, -2048, -2049, 4096, -4096, 0x7FFFFFFF, -0x80000000, 0x12345FFF]
 K_MORE = [0, 1, -1, 255, 256, 65535, 4095, 0x7FFFF800, 0x7FFFF7FF, 0x12345678, -0x12345678, 0x800007FF - (1 << 32)]
 K_SHIFT = [0, 1, 5, 31]
+# ARM: edges of the modified immediate (8 bits rotated by an even amount) and of the 12-bit load/store offset
+K_ARM_QUICK = [255, 256, 257, 0xFF00, 4095, 4096, -255, -256, -4096, 0x7FFFFFFF, -0x80000000, 0x12345678]
+K_ARM_MORE = [0, 1, -1, 0x101, 0x102, 0x3FC, 0x3FD, 0xFF000000 - (1 << 32), 0xF000000F - (1 << 32), 65535, 65536, -4095, -257,
+              0xFFFF00FF - (1 << 32), 0x00FFFF00, 1020, 1024]
 OPS_XK = ["+", "-", "*", "&", "|", "^", "/", "%", "<", "=="]
 OPS_KX = ["+", "-", "&", "|", "^", "/", "<"]
 NARROW = ["i8", "u8", "i16", "u16", "i32", "u32"]
@@ -177,9 +181,12 @@ def get(name):
     raise KeyError(name)
 
 
-def k_names(tier):
+def k_names(tier, march="riscv"):
     out = []
-    ks = K_QUICK if tier == "quick" else K_QUICK + K_MORE
+    if march == "arm":
+        ks = K_ARM_QUICK if tier == "quick" else K_ARM_QUICK + K_ARM_MORE
+    else:
+        ks = K_QUICK if tier == "quick" else K_QUICK + K_MORE
     for ty in ("int", "uint"):
         for op in OPS_XK:
             for K in ks:
@@ -189,7 +196,7 @@ def k_names(tier):
                     continue
                 out.append(f"k:{ty}:{op}:{K}:xk")
         for op in OPS_KX:
-            for K in (ks if tier != "quick" else [2047, -2049, 4096, 0x7FFFFFFF]):
+            for K in (ks if tier != "quick" else ([255, 257, -256, 4096] if march == "arm" else [2047, -2049, 4096, 0x7FFFFFFF])):
                 if tier == "quick" and ty == "uint":
                     continue
                 out.append(f"k:{ty}:{op}:{K}:kx")
@@ -215,10 +222,12 @@ def n_names(tier):
 
 
 FRAME_WORDS = [100, 480, 500, 504, 505, 506, 507, 508, 509, 510, 511, 512, 600]
+FRAME_WORDS_ARM = [60, 250, 253, 254, 255, 256, 257, 258, 1019, 1020, 1021, 1022, 1023, 1024, 1025, 1030]   # ~1 KiB, ~4 KiB
 
 
-def names(tier):
-    return sorted(cprogs.PROGS) + sorted(SHAPES) + k_names(tier) + n_names(tier) + [f"f:{n}" for n in FRAME_WORDS]
+def names(tier, march="riscv"):
+    fw = FRAME_WORDS_ARM if march == "arm" else FRAME_WORDS
+    return sorted(cprogs.PROGS) + sorted(SHAPES) + k_names(tier, march) + n_names(tier) + [f"f:{n}" for n in fw]
 
 
 def family(name):
